@@ -102,6 +102,9 @@ class DefRuntime:
         else:
             def f(*args: Any) -> Any:
                 return None
+        if m["name"] == "__repr__":
+            def f(self: Any) -> Any:  # noqa
+                return "K()"
         f.__name__ = m["name"]
         f.__qualname__ = m["name"]
         f.__doc__ = "doc of " + m["name"]
